@@ -25,7 +25,9 @@ static const int NJ = 3, NM = 4, NC = 6, NSLOT = NJ + NM + NC; // joinable 0..2,
 
 static Case gen_case() {
     Case c;
-    c.cfg = {pick(0, 1)}; // names on/off
+    // names on/off; mask of thread slots launched pinned to a cpu that does not exist (create fails with EINVAL,
+    // the library retries unpinned)
+    c.cfg = {pick(0, 1), chance(35) ? pick(0, (1u << NSLOT) - 1) : 0};
     c.ops = op_list(45, [] {
         if (chance(45)) {
             switch (weighted({3, 4, 4, 3, 2, 1})) {
@@ -78,6 +80,8 @@ struct World {
     int next_j = 0, next_m = NJ, next_c = NJ + NM;
     uint64_t seq = 0;
     bool names = false;
+    uint64_t pin_mask = 0;
+    int pinned_launches = 0;
     int at_exits = 0, child_launches = 0;
     std::vector<AtExit *> all_at_exit;
 };
@@ -143,6 +147,10 @@ static void launch(World &w, Slot &s, bool managed, int depth) {
     char nm[16];
     snprintf(nm, sizeof nm, "c20-%d", s.slot);
     if (w.names) opt.name = aws_byte_cursor_from_c_str(nm);
+    if ((w.pin_mask >> s.slot) & 1) {
+        opt.cpu_id = 1000; // no such cpu: pinning is documented as best effort, the launch must still succeed
+        w.pinned_launches++;
+    }
     if (aws_thread_launch(&s.thread, thread_fn, &s, &opt) != AWS_OP_SUCCESS) {
         w.ctx->note_fail(fmt("aws_thread_launch failed for slot %d", s.slot));
         return;
@@ -200,6 +208,7 @@ static void run(const Case &c, Ctx &ctx) {
     w.ctx = &ctx;
     w.c = &c;
     w.names = c.c(0) % 2 == 1;
+    w.pin_mask = c.c(1);
     for (int i = 0; i < NSLOT; i++) {
         w.s[i].w = &w;
         w.s[i].slot = i;
@@ -251,6 +260,7 @@ static void run(const Case &c, Ctx &ctx) {
     if (managed >= 3 && out_of_order) ctx.tag("managed_finish_out_of_order");
     if (w.child_launches) ctx.tag("managed_launches_managed");
     if (w.at_exits) ctx.tag("at_exit");
+    if (w.pinned_launches) ctx.tag("launch_with_impossible_cpu_pin");
     if (managed == 0) ctx.tag("no_managed");
     ctx.nontrivial = w.at_exits >= 1 && ((managed >= 3 && out_of_order) || w.child_launches);
 }
